@@ -2,7 +2,7 @@
     ExtrOcamlBasic only: bool, option, unit, list, prod, sumbool, sumor map to OCaml's own
     types and andb/orb are inlined; positive/N/Z/nat stay the inductive types. *)
 From Coq Require Extraction ExtrOcamlBasic.
-From Chess Require Import Spec.Rules Spec.Text Model.Board Model.MoveGen Model.Fen Model.San Model.Game Model.CacheTable.
+From Chess Require Import Spec.Rules Spec.Text Spec.Draw Model.Board Model.MoveGen Model.Fen Model.San Model.Game Model.CacheTable.
 Extraction Language OCaml.
 Extraction "/verif/build/ocaml/model.ml"
   (* Base *) bit lnot64 mul64 squares_of popcnt to_square trailing_zeros bswap64 pext64 pdep64 M64 all_sq
@@ -10,7 +10,7 @@ Extraction "/verif/build/ocaml/model.ml"
              pawn_attack_tab pawn_push_tab rank_bb file_bb adjacent_files_bb edges_bb between_b line_b
              legal_moves apply status in_check checkers_of pinned_of pos_valid pass mirror_v mirror_h
              mirror_v_move mirror_h_move startpos perft men pawns attacked_by
-             std_fen fen_wellformed san_spellings is_capture_move
+             std_fen fen_wellformed san_spellings is_capture_move can_claim clock rep_count final_pos
   (* Model *) from_builder_raw try_from_builder from_scratch abs_board builder_of_board builder_of_pos
              is_sane get_hash null_move make_move_new make_move update_pin_info piece_on color_on
              enumerate_moves movelist_overflow movelist_cap new_legal next len set_iterator_mask remove_mask remove_move
